@@ -1,4 +1,4 @@
-(* C20 driver: scenario = <dur> <ntests> { <group> <name> <file> <line> <ignored> <nstmts> { :p <text> | :f <file> <line> <msg> | :x <file> <line> <msg> } }
+(* C20 driver: scenario = <dur> <nfilters> { <name> } <ntests> { <group> <name> <file> <line> <ignored> <nstmts> { :p <text> | :f <file> <line> <msg> | :x <file> <line> <msg> } }
    observation = <stream>.
    Extra form (parser differential, no implementation involved): :raw <bytes>; the model answers
    :parsed 0   or   :parsed 1 <nmsgs> { <name> <nattrs> { <key> <value> } }   (checks/C20.py compares this with its own decoder) *)
@@ -12,7 +12,9 @@ let test c =
   let g = bytes_tok (next c) in let n = bytes_tok (next c) in let f = bytes_tok (next c) in let l = n_tok (next c) in
   let ign = bool_tok (next c) in let body = counted c stmt in
   { t_group = g; t_name = n; t_file = f; t_line = l; t_ignored = ign; t_body = body }
-let scenario c = let d = n_tok (next c) in let ts = counted c test in { s_dur = d; s_tests = ts }
+let scenario c =
+  let d = n_tok (next c) in let fs = counted c (fun c -> bytes_tok (next c)) in let ts = counted c test in
+  { s_dur = d; s_filters = fs; s_tests = ts }
 let pparsed r =
   match r with
   | None -> ":parsed 0"
